@@ -16,7 +16,7 @@ pub fn run(ctx: &Ctx) -> i32 {
     );
     rep.assume("top-level code reads only a0/a1 and its own definitions (the tool documents a0,a1 as the program arguments); it never reads sp/ra/sN before writing them");
     rep.assume("a program whose premise check (generator audit by the dynamic convention monitor) fails is a generator problem, counted as premise_failed, never a violation");
-    let per_shard: usize = ctx.tier.pick(100, 6000);
+    let per_shard: usize = ctx.tier.pick(200, 6000);
     let prof = Profile::conforming();
     let acc = run_sharded(ctx, |shard| {
         let mut acc = Acc::new();
